@@ -139,7 +139,11 @@ def inoculate_dataset(
 
     if isinstance(target_ds, (rdflib.ConjunctiveGraph, rdflib.Dataset)):
         if not isinstance(target_ds, rdflib.Dataset):
-            raise RuntimeError("Cannot inoculate ConjunctiveGraph, use Dataset instead.")
+            from pyshacl.errors import ReportableRuntimeError
+
+            raise ReportableRuntimeError(
+                "Cannot mix an ontology into a ConjunctiveGraph in place, use a Dataset instead (or inplace=False)."
+            )
     else:
         raise RuntimeError("Cannot inoculate datasets if target_ds passed in is not a Dataset itself.")
 
